@@ -1,0 +1,84 @@
+//go:build verif
+
+/*
+ * Atree - Scalable Arrays and Ordered Maps
+ *
+ * Copyright Flow Foundation
+ *
+ * Licensed under the Apache License, Version 2.0 (the "License");
+ * you may not use this file except in compliance with the License.
+ * You may obtain a copy of the License at
+ *
+ *   http://www.apache.org/licenses/LICENSE-2.0
+ *
+ * Unless required by applicable law or agreed to in writing, software
+ * distributed under the License is distributed on an "AS IS" BASIS,
+ * WITHOUT WARRANTIES OR CONDITIONS OF ANY KIND, either express or implied.
+ * See the License for the specific language governing permissions and
+ * limitations under the License.
+ */
+
+package atree
+
+// This file is only compiled with the "verif" build tag.  It exposes the
+// seams needed by an external deterministic-simulation harness:
+// tuning knobs that are otherwise only reachable from export_test.go,
+// optional scheduling hooks in the commit/preload worker pools, and a
+// read-only view of the storage layers.  Nothing here is used by the library.
+
+// VerifSetThreshold sets the global slab size threshold (see setThreshold).
+func VerifSetThreshold(threshold uint32) (uint32, uint32, uint32, uint32) {
+	return setThreshold(threshold)
+}
+
+// VerifTargetThreshold returns the current global slab size threshold.
+func VerifTargetThreshold() uint32 {
+	return targetThreshold
+}
+
+// VerifSetMaxCollisionLimitPerDigest sets the per-digest collision limit and returns the previous limit.
+func VerifSetMaxCollisionLimitPerDigest(limit uint32) uint32 {
+	old := maxCollisionLimitPerDigest
+	maxCollisionLimitPerDigest = limit
+	return old
+}
+
+// VerifYield, if set, is called by every commit/preload worker right after it takes a job.
+var VerifYield func(site string, id SlabID)
+
+// VerifOrderSlabIDs, if set, may reorder (in place) the slab IDs collected from map iteration
+// in NondeterministicFastCommit, so that a simulation can replay one particular order.
+var VerifOrderSlabIDs func(ids []SlabID)
+
+func verifYield(site string, id SlabID) {
+	if VerifYield != nil {
+		VerifYield(site, id)
+	}
+}
+
+func verifOrderSlabIDs(ids []SlabID) {
+	if VerifOrderSlabIDs != nil {
+		VerifOrderSlabIDs(ids)
+	}
+}
+
+// VerifLayerIDs returns the IDs held by the write set and the read cache of s:
+// pending stores, pending removals, cached slabs, and IDs cached as absent.
+// The returned slices are in unspecified order.
+func VerifLayerIDs(s *PersistentSlabStorage) (stored, removed, cached, cachedAbsent []SlabID) {
+	for id, slab := range s.deltas {
+		if slab == nil {
+			removed = append(removed, id)
+		} else {
+			stored = append(stored, id)
+		}
+	}
+	for id, slab := range s.cache {
+		if slab == nil {
+			cachedAbsent = append(cachedAbsent, id)
+		} else {
+			cached = append(cached, id)
+		}
+	}
+	return stored, removed, cached, cachedAbsent
+}
